@@ -100,7 +100,8 @@ CHECKS.update({
        "unsubscribe_ls, lock, acquire_lock, release_lock, transform) through the real V0/V1::process_incoming_message and handlers against a NONDETERMINISTIC core (stand-in API: "
        "the solver chooses success or one of the core's errors), transaction id any u64: exactly one message is queued for the client, it carries the request's id, it is of the "
        "kind the protocol assigns (Ack/State/PState/CState/LsState) or an Err with ErrorCode::from(reason), the handler returns Ok (session continues), one core call per request, "
-       "a forwarding task is spawned exactly for an acknowledged subscription; request kinds the negotiated version does not implement are answered with Err NotImplemented (fixed finding).",
+       "a forwarding task is spawned exactly for an acknowledged subscription; request kinds the negotiated version does not implement are answered with Err NotImplemented (fixed finding); the acquire_lock confirmation task answers exactly once after the core "
+       "decided (Ack when granted, Err LockAcquisitionCancelled when cancelled); ErrorCode::from(&WorterbuchError) maps every constructible reason to the code named after it (fixed finding).",
   note=BASE + "One request per harness on a fresh session state (the handlers keep no per-session state besides the queue, so this composes to pipelined sequences); the core is a stand-in "
        "(src/standin_api.rs) - what the real core answers is C01-C08. Outside: decoding of the request line (serde_json text), Proto::process_incoming_message's protocol switch, the "
        "socket loops of tcp.rs / unix.rs / websocket (read: an Err from the handler ends the session), the forwarding tasks' bodies, several concurrent sessions (tokio).", ref="A C13"),
